@@ -44,9 +44,7 @@ def install_nodes_model(rt):
     F = z3.Function
     rt.f_node = F("oid_node", OID, Int, Int)
     rt.f_idx = F("oid_index_text", OID, Int, PStr)
-    n, m = z3.Int("n"), z3.Int("m")
-    rt.theory.add_once("int_str-injective", lambda: z3.ForAll([n, m], z3.Implies(rt.f_int_str(n) == rt.f_int_str(m), n == m)))
-    rt.theory.add("int_str(0)", rt.f_int_str(z3.IntVal(0)) == rt.str_lit("0"))
+    rt.theory.add("int_str(0)", rt.f_int_str(z3.IntVal(0)) == rt.str_lit("0"), light=True)
     rt.theory.note("oid.nodes: node(oid,i), idx(oid,s) = '.'.join(str(n) for n in nodes[s:]) and str(int) are "
                    "uninterpreted (str(int) injective, str(0) == '0')")
 
@@ -110,7 +108,7 @@ class Tablify(VU):
     def setup(self, rt, interp):
         self.rt = rt
         if rt.oid is None:
-            rt.oid = OidTheory(rt)
+            rt.oid = OidTheory(rt, order=False)
         self.xv = XValTheory(rt, interp)
         install_nodes_model(rt)
 
@@ -128,6 +126,11 @@ class Tablify(VU):
             idx.append(SStr(rt.f_idx(o.e, nb.e + 1)))
             col.append(SStr(rt.f_int_str(rt.f_node(o.e, nb.e))))
             val.append(v)
+        # str(int) is injective: ground instances for the column numbers of this stream (and for 0)
+        cn = [rt.f_node(vb[0].e, nb.e) for vb in vbs] + [z3.IntVal(0)]
+        for a in range(len(cn)):
+            for b in range(a + 1, len(cn)):
+                ctx.assume(lift_bool(z3.Implies(rt.f_int_str(cn[a]) == rt.f_int_str(cn[b]), cn[a] == cn[b])))
         fn = get_func(rt, interp, self.target)
         exc = res = None
         try:
